@@ -142,8 +142,8 @@ def _universe_facts(text):
     for card in blocks[0]:
         toks = spec.tokens(card.text, cell_geometry=True)
         for i, t in enumerate(toks):
-            if t in ("FILL", "*FILL") and i + 1 < len(toks) and re.match(r"^\d+$", toks[i + 1]):
-                fills.add(int(toks[i + 1]))
+            if t in ("FILL", "*FILL") and i + 1 < len(toks) and re.match(r"^\+?\d+(\.0*)?$", toks[i + 1]):
+                fills.add(int(float(toks[i + 1])))
             if t == "U" and i + 1 < len(toks) and re.match(r"^-?\d+$", toks[i + 1]):
                 unis.add(abs(int(toks[i + 1])))
     for card in blocks[2]:
@@ -161,12 +161,18 @@ def _universe_facts(text):
 def C13_fill_dangling_universe(case, params):
     """FILL names a universe no cell declares: Fill.push_to_cells looks it up by number, KeyError comes out"""
     f = _f(case)
-    if f.get("kind") != "leak" or f.get("cls") != "KeyError" or "get_universe" not in (f.get("stack") or []):
+    # (in check mode the same look-up is reached when normal mode stopped earlier at another error)
+    if f.get("kind") not in ("leak", "check-raises") or f.get("cls") != "KeyError" \
+            or "get_universe" not in (f.get("stack") or []):
         return False
     if not _all_construct(case) and (case.get("iso") or {}).get("out") != "skipped":
         return False
     fills, unis = _universe_facts(case["text"])
-    return any(n > 0 and n not in unis for n in fills)
+    if any(n > 0 and n not in unis for n in fills):
+        return True
+    # ... or the data-block U / FILL input holds an entry that is no number: the universes end up on other cells
+    cards, ncell = _per_cell_cards(case["text"])
+    return any(junk for w, n, junk in cards if w in ("u", "fill", "*fill"))
 
 
 PER_CELL = re.compile(r"^(\*?fill|imp:.*|vol|u|lat)$")
@@ -195,7 +201,8 @@ def C13_cell_data_card_length(case, params):
     """a data-block card with one entry per cell (IMP, VOL, U, LAT, FILL) has more / fewer entries than there are
     cells, or an entry that is no number: push_to_cells runs off the list (IndexError) or onto None (AttributeError)"""
     f = _f(case)
-    if f.get("kind") != "leak" or f.get("cls") not in ("AttributeError", "IndexError", "TypeError"):
+    # (in check mode the same is reached when normal mode stopped earlier at another error)
+    if f.get("kind") not in ("leak", "check-raises") or f.get("cls") not in ("AttributeError", "IndexError", "TypeError"):
         return False
     if "push_to_cells" not in (f.get("stack") or []):
         return False
@@ -275,7 +282,13 @@ def C13_check_knock_on(case, params):
     st = f.get("stack") or []
     if "__update_internal_pointers" not in st:
         return False
-    return _first(case) is not None
+    # an input is skipped in check mode: it fails on its own, or the inputs cannot even be split (vertical format),
+    # or two objects share a number (the second is not appended)
+    iso = case.get("iso") or {}
+    if _first(case) is not None or iso.get("out") == "raise":
+        return True
+    import props.C13 as C13
+    return any("is used twice" in r for r in C13.spec_read(case["text"])["invalid"])
 
 
 def _particles(text):
